@@ -330,8 +330,29 @@ func init() {
 	}))
 	reg("math.Sin", used("math.Sin/Cos", func(m *Machine, fr *frame, a []value) value { return m.mathSinCos(a[0], true) }))
 	reg("math.Cos", used("math.Sin/Cos", func(m *Machine, fr *frame, a []value) value { return m.mathSinCos(a[0], false) }))
+	reg("math.Acos", used("math.Acos(model: theta in [0,pi] with cos(theta)=x, sin(theta)=sqrt(1-x^2))", func(m *Machine, fr *frame, a []value) value {
+		sf, ok := a[0].(symFloat)
+		if !ok {
+			return math.Acos(a[0].(float64))
+		}
+		if m.mode != ModeReal {
+			panic(pathEnd{status: StUnsupported, msg: "math.Acos symbolic in fp mode"})
+		}
+		one, zero := m.tt.RealLit(1), m.tt.RealLit(0)
+		m.guard(m.tt.And(m.tt.App(">=", sortBool, sf.t, m.tt.RealLit(-1)), m.tt.App("<=", sortBool, sf.t, one)), "acos outside [-1,1]")
+		theta := m.freshInternal("acos", sf.t, sortReal)
+		m.addPC(m.tt.App(">=", sortBool, theta, zero))
+		m.addPC(m.tt.App("<=", sortBool, theta, m.tt.RealLit(math.Pi)))
+		// sin/cos of theta are the variables mathSinCos would create for it
+		sn := m.freshInternal("sin", theta, sortReal)
+		cs := m.freshInternal("cos", theta, sortReal)
+		m.addPC(m.tt.Eq(cs, sf.t))
+		m.addPC(m.tt.App(">=", sortBool, sn, zero))
+		m.addPC(m.tt.Eq(m.tt.App("+", sortReal, m.tt.App("*", sortReal, sn, sn), m.tt.App("*", sortReal, sf.t, sf.t)), one))
+		return symFloat{theta, 64}
+	}))
 	native1 := map[string]func(float64) float64{
-		"math.Tan": math.Tan, "math.Asin": math.Asin, "math.Acos": math.Acos, "math.Atan": math.Atan,
+		"math.Tan": math.Tan, "math.Asin": math.Asin, "math.Atan": math.Atan,
 		"math.Exp": math.Exp, "math.Log": math.Log, "math.Log2": math.Log2, "math.Log10": math.Log10, "math.Cbrt": math.Cbrt,
 		"math.Sinh": math.Sinh, "math.Cosh": math.Cosh, "math.Tanh": math.Tanh, "math.Exp2": math.Exp2, "math.Log1p": math.Log1p,
 	}
